@@ -196,6 +196,8 @@ def snapshot(ctx, case, router, ref, label):
 
 
 def execute(ctx, case):
+  if 'conf_dests' in case:
+    return execute_conf_order(ctx, case)
   b = env.bootstrap()
   env.reset()
   nodes = [tuple(n) for n in case['nodes']]
@@ -315,8 +317,51 @@ def execute(ctx, case):
            key=[case['nodes'], case['ops'], case['hash'], case['keys']])
 
 
+def conf_order_cases():
+  import itertools as _it
+  hosts = ['10.0.0.%d:2004:a' % i for i in range(1, 8)] + ['graphite-b.example.com:2104:cache-0', '[::1]:2004:b']
+  for n in (2, 3, 5, 8):
+    for k, perm in enumerate(_it.islice(_it.permutations(hosts[:n + 1], n), 0, 40, 7)):
+      yield {'conf_dests': list(perm), 'trailing_comma': k % 2 == 1}
+
+
+def execute_conf_order(ctx, case):
+  """'For a given ordered destination list': the list a relay works with is DESTINATIONS as written in carbon.conf,
+  read by Settings.readFrom() and parsed by util.parseDestinations(), in that order."""
+  import os
+  b = env.bootstrap()
+  from carbon import conf
+  path = os.path.join(b.tmp, 'c06-carbon.conf')
+  with open(path, 'w') as f:
+    f.write('[relay]\nRELAY_METHOD = consistent-hashing\nDESTINATIONS = %s%s\n' % (
+      ', '.join(case['conf_dests']), ''))
+  st_ = env.need(conf, 'Settings')()
+  st_.readFrom(path, 'relay')
+  got = list(st_['DESTINATIONS'])
+  if got != case['conf_dests']:
+    ctx.fail('C06:destination-order-not-preserved', 'carbon.conf lists DESTINATIONS = %r, the daemon works with %r (join order decides '
+             'which of two colliding replicas is bumped)' % (case['conf_dests'], got), case, 'compatibility')
+    return
+  try:
+    parsed = [tuple(d) for d in b.util.parseDestinations(got)]
+  except Exception as e:  # noqa
+    ctx.fail('C06:destinations-rejected:%s' % type(e).__name__, 'parseDestinations(%r) raised %r' % (got, e), case)
+    return
+  want = []
+  for d in case['conf_dests']:
+    host, port, inst = d.rsplit(':', 2)
+    want.append((host.strip('[]'), int(port), inst))
+  if parsed != want:
+    ctx.fail('C06:destination-order-not-preserved', 'DESTINATIONS %r parsed to %r' % (case['conf_dests'], parsed), case, 'compatibility')
+    return
+  ctx.note(case, nontrivial=len(got) >= 3, classes=['destination order through carbon.conf'], key=['conf'] + got)
+
+
 def run(ctx):
   refring.selfcheck()
+  if (ctx.shard or 0) == 0:
+    for case in conf_order_cases():
+      execute_conf_order(ctx, case)
   if ctx.quick:
     run_given(ctx, cases(exhaustive=True), execute, 3, salt=1)
     run_given(ctx, cases(), execute, 260, salt=2)
